@@ -23,7 +23,7 @@ def guarded_parse(src, extensions=(), eos=False, pragmas=True, count_work=True):
     """-> (tokens|None, failure_sig|None, work)"""
     p = drive.get_parser(extensions, pragmas)
     try:
-        with cpu_guard(BACKSTOP_CPU_S * 3):
+        with cpu_guard(BACKSTOP_CPU_S):
             if count_work:
                 toks = _WC.run(lambda: p.parse(src, eos=eos), budget=work_budget(len(src)))
             else:
@@ -35,6 +35,8 @@ def guarded_parse(src, extensions=(), eos=False, pragmas=True, count_work=True):
         return None, "cpu-backstop", _WC.count
     except RecursionError:
         return None, "RecursionError", _WC.count
+    except MemoryError:
+        return None, "MemoryError", _WC.count
     except Exception as e:  # BadTokenizationError and anything else escaping transform()
         return None, "exc:" + call_site(e), _WC.count
 
@@ -102,6 +104,8 @@ def c02_eval(src, tokens):
         return "fail", "regen-cpu-backstop"
     except RecursionError:
         return "fail", "regen-RecursionError"
+    except MemoryError:
+        return "fail", "regen-MemoryError"
     except Exception as e:
         return "fail", "regen-exc:" + call_site(e)
     if out == src:
